@@ -1,0 +1,77 @@
+//go:build verif
+
+// Contracts for the verification machinery in /verif (comment-only file, never compiled
+// into a normal build and never bundled into template_static.go): the static wrappers
+// every generated package carries (C14). Syntax: /verif/DESIGN.md.
+//
+// The typed Configuration wraps a RawConfiguration: its typed node list must agree with
+// the raw one position by position (C14.a: Nodes, NodeIDs and Size agree), the raw
+// configuration must be exactly what the runtime constructor returned for the given
+// option (so everything proved about the constructors carries over), and an empty
+// configuration must be refused (C14.e).
+
+package dev
+
+//@ func dev.ConfigurationFromRaw
+//@   props C14
+//@   nopanic C14
+//@   loop "for i, n := range rawCfg"
+//@     invariant newCfg != nil && len(newCfg.nodes) == len(rawCfg) && newCfg.RawConfiguration == rawCfg && newCfg.qspec == qspec
+//@     invariant forall(k, 0, idx, newCfg.nodes[k] != nil && newCfg.nodes[k].RawNode == rawCfg[k])
+//@     invariant forall(k, 0, len(rawCfg), rawCfg[k] == old(rawCfg[k]))
+//@   ensures[C14.a] result1 == nil ==> result0 != nil && result0.RawConfiguration == rawCfg && len(result0.nodes) == len(rawCfg) && result0.qspec == qspec
+//@   ensures[C14.a] result1 == nil ==> forall(k, 0, len(rawCfg), result0.nodes[k] != nil && result0.nodes[k].RawNode == rawCfg[k])
+//@   ensures[C14.d] forall(k, 0, len(rawCfg), rawCfg[k] == old(rawCfg[k]))
+//@   ensures[C14.e] result1 != nil ==> result0 == nil
+
+//@ func (*dev.Configuration).Nodes
+//@   props C14
+//@   requires c != nil
+//@   ensures[C14.a] result == c.nodes
+
+// And / Except hand exactly the two raw configurations, in this order, to the runtime's
+// set operations (whose contracts state union and difference).
+//@ func (dev.Configuration).And
+//@   props C14
+//@   requires d != nil
+//@   ensures[C14.b] typeis(result, "*gorums.addConfig") && result.(*gorums.addConfig) != nil && result.(*gorums.addConfig).old == c.RawConfiguration && result.(*gorums.addConfig).add == d.RawConfiguration
+
+//@ func (*dev.Manager).Nodes
+//@   props C14
+//@   nopanic C14
+//@   requires m != nil && m.RawManager != nil
+//@   loop "for i, n := range gorumsNodes"
+//@     invariant len(nodes) == len(gorumsNodes) && forall(k, 0, idx, nodes[k] != nil && nodes[k].RawNode == gorumsNodes[k])
+//@   ensures[C14.a] forall(k, 0, len(result), result[k] != nil && result[k].RawNode != nil)
+
+// NewConfiguration: every node-list option is resolved by the runtime constructor on THIS
+// manager's raw manager, and the raw configuration kept is exactly the constructor's result
+// (ghost raw / gotRaw), so it is non-nil, strictly sorted by id and non-empty (C14.a, C14.e by the
+// constructor's contract); the typed node list agrees with it position by position. The
+// precondition mirrors NewRawConfiguration's: leaf options (WithNodeList/WithNodeMap/WithNodeIDs);
+// the wrapper does the same for every option type.
+//@ func (*dev.Manager).NewConfiguration
+//@   props C14
+//@   nopanic C14
+//@   requires m != nil && m.RawManager != nil && m.RawManager.lookup != nil
+//@   requires forall(id, in(id, m.RawManager.lookup) ==> m.RawManager.lookup[id] != nil && m.RawManager.lookup[id].id == id)
+//@   requires forall(k, 0, len(opts), !typeis(opts[k], "*gorums.addNodes") && !typeis(opts[k], "gorums.addNodes") && !typeis(opts[k], "gorums.addConfig") && !typeis(opts[k], "*gorums.addConfig"))
+//@   ghost gotRaw Bool = false
+//@   on call "gorums.NewRawConfiguration"
+//@     assert[C14.f] arg0 == m.RawManager
+//@     after set gotRaw = (res1 == nil)
+//@   loop "for _, opt := range opts"
+//@     invariant c != nil && m.RawManager != nil && m.RawManager.lookup != nil
+//@     invariant forall(id, in(id, m.RawManager.lookup) ==> m.RawManager.lookup[id] != nil && m.RawManager.lookup[id].id == id)
+//@     invariant !gotRaw ==> len(c.RawConfiguration) == 0
+//@     invariant gotRaw ==> len(c.RawConfiguration) > 0
+//@     invariant forall(i, 0, len(c.RawConfiguration), c.RawConfiguration[i] != nil) && forall(i, 0, len(c.RawConfiguration), forall(j, 0, len(c.RawConfiguration), i < j ==> c.RawConfiguration[i].id < c.RawConfiguration[j].id))
+//@   loop "for i, n := range c.RawConfiguration"
+//@     invariant c != nil && len(c.nodes) == len(c.RawConfiguration)
+//@     invariant forall(k, 0, idx, c.nodes[k] != nil && c.nodes[k].RawNode == c.RawConfiguration[k])
+//@     invariant forall(i, 0, len(c.RawConfiguration), c.RawConfiguration[i] != nil) && forall(i, 0, len(c.RawConfiguration), forall(j, 0, len(c.RawConfiguration), i < j ==> c.RawConfiguration[i].id < c.RawConfiguration[j].id))
+//@     invariant gotRaw ==> len(c.RawConfiguration) > 0
+//@   ensures[C14.a] err == nil ==> c != nil && len(c.nodes) == len(c.RawConfiguration) && forall(k, 0, len(c.RawConfiguration), c.nodes[k] != nil && c.nodes[k].RawNode == c.RawConfiguration[k])
+//@   ensures[C14.a] err == nil ==> forall(i, 0, len(c.RawConfiguration), c.RawConfiguration[i] != nil) && forall(i, 0, len(c.RawConfiguration), forall(j, 0, len(c.RawConfiguration), i < j ==> c.RawConfiguration[i].id < c.RawConfiguration[j].id))
+//@   ensures[C14.e] err == nil ==> len(c.RawConfiguration) > 0
+//@   ensures[C14.e] err != nil ==> c == nil
